@@ -30,11 +30,10 @@ pub fn read_input_file_and_xsd_files_at_path(current_file: &Path) -> WriterResul
         let entry = entry?;
         let path = entry.path();
         if path.is_file() && path.extension().unwrap_or_default() == "xsd" && path.file_name() != current_file.file_name() {
-            let file_name = path
-                .file_name()
-                .ok_or(WriterError::PathNotFound)?
-                .to_str()
-                .ok_or(WriterError::PathNotFound)?;
+            // a schemaLocation is text: a sibling whose name is not (not valid UTF-8) can not be meant by any import
+            let Some(file_name) = path.file_name().and_then(|name| name.to_str()) else {
+                continue;
+            };
             // a sibling that can not be read as text (e.g. not UTF-8) only matters when something imports it, and then
             // the import reports it as not found; an unrelated file must not make the run fail
             if let Ok(xml) = std::fs::read_to_string(&path) {
